@@ -27,6 +27,7 @@ and vacuity guards C11.vacuity.* (must-fail twins must be refuted) and C11.cover
 from __future__ import annotations
 
 import ast
+import itertools
 import inspect
 import random
 import textwrap
@@ -1330,6 +1331,7 @@ def handler_static(cls, hname):
     """what the handler text does: flags set True, propagation calls, branch-freeness, unresolved self attributes"""
     chain = handler_chain(cls, hname)
     sets, fires, branchy, uses_args, unresolved = set(), set(), False, False, []
+    loads, loopy = set(), False
     init_attrs = set()
     for k in tt_mro(cls):
         f = k.__dict__.get("__init__")
@@ -1345,6 +1347,10 @@ def handler_static(cls, hname):
         for x in ast.walk(node):
             if isinstance(x, (ast.If, ast.For, ast.While, ast.Try, ast.IfExp)):
                 branchy = True
+            if isinstance(x, (ast.For, ast.While, ast.Try)):
+                loopy = True
+            if _is_self_attr(x) and isinstance(x.ctx, ast.Load) and not x.attr.startswith("fire_"):
+                loads.add(x.attr)
             if isinstance(x, ast.Assign) and isinstance(x.value, ast.Constant) and x.value.value is True:
                 for t in x.targets:
                     if _is_self_attr(t):
@@ -1359,6 +1365,7 @@ def handler_static(cls, hname):
                     unresolved.append(x.attr)
     return {"defined_in": "%s.%s" % (chain[0][0].__module__, chain[0][0].__name__) if chain else None,
             "sets_true": sorted(sets), "fires": sorted(fires), "branch_free": not branchy, "uses_arguments": uses_args,
+            "self_loads": sorted(loads), "loops_or_try": loopy,
             "unresolved_self_attributes": sorted(set(unresolved)),
             "is_pass": bool(chain) and all(all(isinstance(s, ast.Pass) or (isinstance(s, ast.Expr) and isinstance(s.value, ast.Constant))
                                                   for s in n.body) for _, n in chain)}
@@ -1737,15 +1744,20 @@ def check_handler(cls_qual, hname, scn_names):
         if not deps:
             info["verdict"] = "no dependency read by the class notifies through this handler: nothing to invalidate or propagate"
             continue
-        if not st["branch_free"] or st["uses_arguments"]:
-            raise Undecided("%s.%s branches or inspects its arguments: one execution per dependency does not cover every notification "
-                            "(the U argument needs a straight-line handler)" % (cls.__name__, hname))
+        own_flags = [f for f in a.flags if f in a.out.__dict__]
+        if st["uses_arguments"] or st.get("loops_or_try") or (not st["branch_free"] and not set(st.get("self_loads", ())) <= set(own_flags)):
+            raise Undecided("%s.%s branches on something other than the object's own dirty flags or inspects its arguments: one execution "
+                            "per dependency does not cover every notification" % (cls.__name__, hname))
+        # a straight-line handler needs one pre-state; a handler that branches on the object's own dirty flags is run from
+        # EVERY combination of those flags (complete case split)
+        pre_states = [tuple(False for _ in own_flags)] if st["branch_free"] else list(itertools.product((False, True), repeat=len(own_flags)))
         # (ii) flags, (iii) propagation: fire each read dependency and look
-        for key, r in deps:
+        for key, r in [(k_, r_) for (k_, r_) in deps for _ps in pre_states]:
+            pass
+        for (key, r), pre in [((k_, r_), ps) for (k_, r_) in deps for ps in pre_states]:
             dep = r["obj"]
-            for f in a.flags:
-                if f in a.out.__dict__:
-                    object.__setattr__(a.out, f, False)
+            for f, v0 in zip(own_flags, pre):
+                object.__setattr__(a.out, f, v0)
             L = _attach_listener(a.out)
             try:
                 _fire(dep)
@@ -1758,6 +1770,33 @@ def check_handler(cls_qual, hname, scn_names):
                 _refute("%s.%s does not set dirty flag(s) %s when %s changes (the class reads %s.%s and caches behind these flags)"
                         % (cls.__name__, hname, missing, r["label"], r["label"], sorted(r["members"])), sn, ops, found,
                         {"dependency": str(r["label"]), "flags_not_set": missing, "handler_static": st})
+            if not propagated and any(pre):
+                # The handler skips the notification when its own flags are already set.  That is only safe if no listener can have
+                # been re-evaluated (become clean) while these flags stay set, i.e. if every evaluation of the object clears them.
+                # Reachable flag states: closure of "all flags set" under the scenario's evaluations (evaluations only clear flags).
+                reach_states = {tuple(True for _ in own_flags): "after a notification"}
+                frontier = list(reach_states)
+                while frontier:
+                    st0 = frontier.pop()
+                    for lab, fn in a.scn.evals.items():
+                        for f, v0 in zip(own_flags, st0):
+                            object.__setattr__(a.out, f, v0)
+                        try:
+                            with _rng_frozen(4242):
+                                fn()
+                        except Exception:
+                            continue
+                        st1 = tuple(bool(a.out.__dict__.get(f)) for f in own_flags)
+                        if st1 not in reach_states:
+                            reach_states[st1] = "%s; then evaluate %s" % (reach_states[st0], lab)
+                            frontier.append(st1)
+                if pre in reach_states and reach_states[pre] != "after a notification":
+                    raise Refuted("%s.%s does not propagate when %s changes while its own flags %s are already set, and that state is reached %s "
+                                  "(an evaluation that leaves the flag set): a listener re-evaluated in between is never invalidated again"
+                                  % (cls.__name__, hname, r["label"], dict(zip(own_flags, pre)), reach_states[pre]),
+                                  witness={"class": cls.__name__, "handler": hname, "dependency": str(r["label"]), "flags_before": dict(zip(own_flags, pre)),
+                                           "reached": reach_states[pre], "handler_static": st}, confirmed=None)
+                continue
             if not propagated:
                 ops, found = find_witness(sn, prefer=_params_behind(a, key), kinds=("stale",))
                 if found:
